@@ -488,7 +488,13 @@ def _worker(cfg, wfd):
                     winner = None
                     if op == "solve":
                         if len(step) > 1:
-                            res = p.solve([_to_fnode(mgr, syms, a) for a in step[1]])
+                            # the assumptions in one of the spellings an Iterable may have (one-shot ones included)
+                            fns = [_to_fnode(mgr, syms, a) for a in step[1]]
+                            how = step[2] if len(step) > 2 else "list"
+                            arg = {"list": lambda: fns, "tuple": lambda: tuple(fns), "set": lambda: set(fns),
+                                   "generator": lambda: (f_ for f_ in fns), "iter": lambda: iter(fns),
+                                   "map": lambda: map(lambda f_: f_, fns)}[how]()
+                            res = p.solve(arg)
                         else:
                             res = p.solve()
                     else:
@@ -748,7 +754,7 @@ def gen_script(rng, ncycles):
                 lits = [rng.choice([["var", i], ["not", ["var", i]]]) for i in rng.sample(range(NVARS), rng.choice([1, 2]))]
                 if rng.random() < 0.3:
                     lits.append(rng.choice([["not", f], gen_formula(rng, 2)]))
-                script.append(["solve", lits])
+                script.append(["solve", lits, rng.choice(["list", "tuple", "set", "generator", "iter", "map"])])
             else:
                 script.append(["solve"])
         q = rng.random()
@@ -800,7 +806,8 @@ def gen_ext_script(rng, ncycles):
             if kind < 0.45:
                 script.append(["solve", [rng.choice([["var", rng.randrange(NVARS)],
                                                      ["ile", ["ivar", rng.choice(INT_VARS)], ["ic", 0]],
-                                                     ["not", ["ueq"] + rng.sample(U_VARS, 2)]])]])
+                                                     ["not", ["ueq"] + rng.sample(U_VARS, 2)]])],
+                               rng.choice(["list", "tuple", "generator", "iter", "map"])])
             else:
                 script.append(["solve"])
         if rng.random() < 0.7:
@@ -1007,7 +1014,8 @@ def describe(cfg):
         ", ".join("%s@%dms/pick%d" % (m["mode"], m["delay_ms"], m["pick"]) for m in cfg["members"]),
         "; ".join(s[0] + (" " + show(s[1]) if s[0] in ("assert", "is_sat", "is_valid", "is_unsat") else
                          "(%d)" % s[1] if s[0] in ("push", "pop") and len(s) > 1 else
-                         "(%s)" % ", ".join(show(a) for a in s[1]) if s[0] == "solve" and len(s) > 1 else "")
+                         "(%s%s)" % ((s[2] + ": ") if len(s) > 2 else "", ", ".join(show(a) for a in s[1]))
+                         if s[0] == "solve" and len(s) > 1 else "")
                   for s in cfg["script"]))
 
 
@@ -1130,7 +1138,7 @@ def check_result(ctx, cfg, records, blocked, lean_sets, reports):
             if op != "solve":
                 ctx.count("one-shot " + op)
             elif len(step) > 1:
-                ctx.count("solve with assumptions")
+                ctx.count("solve with assumptions (%s)" % (step[2] if len(step) > 2 else "list"))
             phase = "sat" if observed == "v:T" else "unsat" if observed == "v:F" else "none"
             # step bound of the model (solve_step_bound): at most one message per member is read, at most n terminations
             # (+1: `_close_existing` terminates the solver kept by the previous call, part of `solveStart`)
